@@ -499,6 +499,26 @@ func c20Delay(c *Check, P string) {
 			}
 		}
 		c.Report(ok, P+".O2", "DELAY-FOR-UNTIL-AGREE", fn, fn.Pos(), "delay."+name, "delayed-for and delayed-until describe the same instant (until = now + for)")
+		// for every argument: each return hands back the value in which both fields were set
+		nStores := map[string]int{}
+		var stores []ssa.Instruction
+		AllInstrs(fn, func(in ssa.Instruction) {
+			if st, isSt := in.(*ssa.Store); isSt {
+				if f, _ := FieldOf(st.Addr); f != nil && (f.Type().String() == "time.Time" || f.Type().String() == "time.Duration") {
+					nStores[f.Type().String()]++
+					stores = append(stores, st)
+				}
+			}
+		})
+		okAlways := nStores["time.Time"] == 1 && nStores["time.Duration"] == 1
+		for _, ret := range Returns(fn) {
+			for _, st := range stores {
+				if !Dominates(fn, st, ret) {
+					okAlways = false
+				}
+			}
+		}
+		c.Report(okAlways, P+".O2", "DELAY-FOR-UNTIL-ALWAYS", fn, fn.Pos(), "delay."+name, "whatever the argument (zero, negative, past), the returned Delay has both fields set from it (no special-cased zero value whose two halves disagree)")
 	}
 }
 
